@@ -513,7 +513,7 @@ def node_term(nid, ev, ob, kids):
 # ------------------------------------------------------------------------------------------------
 # the sweep of one (class, configured, debug) combination -- runs in a worker process
 # ------------------------------------------------------------------------------------------------
-def sequences_for(spec, tier, escalate, seed, combo_name):
+def sequences_for(spec, tier, escalate, seed, combo_name, configured=False):
     n_e = len(spec['expects'])
     primary_invalid = 2
     core_events = [(e, s) for e in (None, 0, 1, primary_invalid) for s in (0, 1, 2)]
@@ -521,7 +521,7 @@ def sequences_for(spec, tier, escalate, seed, combo_name):
     seqs = []
     seqs += [list(t) for t in itertools.product(full_events, repeat=2)]
     if tier == 'thorough':
-        seqs += [list(t) for t in itertools.product(core_events, repeat=4)]
+        seqs += [list(t) for t in itertools.product(core_events, repeat=3 if configured else 4)]
         seqs += [list(t) for t in itertools.product(full_events, repeat=3)]
     else:
         seqs += [list(t) for t in itertools.product(core_events, repeat=3)]
@@ -579,7 +579,7 @@ def sweep_combo(args):
     spec = class_specs()[name]
     canon = Canon(spec)
     T = measure_tables(spec, configured, debug, canon)
-    seqs, n_core, n_full = sequences_for(spec, tier, escalate, seed, '%s/%s/%s' % (name, configured, debug))
+    seqs, n_core, n_full = sequences_for(spec, tier, escalate, seed, '%s/%s/%s' % (name, configured, debug), configured)
     before_settings = settings_snapshot()
     pristine = build(spec, configured, debug)
     pristine_fp = fp(pristine, ident=False)
@@ -673,19 +673,56 @@ def sweep_combo(args):
     def size(p):
         return 1 + sum(size(p + (ev,)) for ev in kids[p])
     tops = [((ev,), size((ev,))) for ev in kids[()]]
-    top_terms = [(term(p), n) for p, n in tops]
     has_defaults = bool(getattr(pristine, 'modified_defaults', None))
+    top_terms = [(term(p), n) for p, n in tops]
     header = tables_coq(T, canon, configured, debug, has_defaults, outcomes) + COMPACT + agree_defs(configured, debug, has_defaults)
+    sweep_seconds = time.time() - t0
+    # ---- let Coq run the regenerated program on the very same tree (one stand-alone file per shard)
+    t1 = time.time()
+    tag = 'c11_%s_%s_%s' % (name.lower(), 'cfg' if configured else 'inf', 'dbg' if debug else 'nod')
+    limit = 1400 if tier == 'quick' else 2500
+    shards, cur, n = [], [], 0
+    for tm, sz in top_terms:
+        if cur and n + sz > limit:
+            shards.append(cur)
+            cur, n = [], 0
+        cur.append(tm)
+        n += sz
+    if cur:
+        shards.append(cur)
+    del top_terms
+    failing_paths, corr_errors, departs = [], [], 0
+    for k, sh in enumerate(shards):
+        text = (header + 'Definition verif_trees : list tr :=\n  [ %s ].\n' % '\n  ; '.join(sh) +
+                'Eval vm_compute in (failing_all verif_trees).\n'
+                'Eval vm_compute in (List.length (departs_all verif_trees)).\n')
+        (fname, rc, out), = core.run_case_files([('%s_%03d' % (tag, k), text)])
+        m = re.search(r'=\s*(\[.*?\]|nil)\s*:\s*list\s+Z', out, re.S) if rc == 0 else None
+        if m is None:
+            corr_errors.append((fname, out[-1500:]))
+            continue
+        bad_ids = re.findall(r'-?\d+', m.group(1))
+        failing_paths += [[list(ev) for ev in paths[int(x)]] for x in bad_ids]
+        if not bad_ids:
+            try:                    # keep only the case files that show a disagreement
+                os.remove(os.path.join(core.CASES, fname + '.v'))
+            except OSError:
+                pass
+        m2 = re.search(r'=\s*(\d+)%nat', out)
+        departs += int(m2.group(1)) if m2 else 0
+    coq_seconds = time.time() - t1
     dist = {'raise': 0, 'ret': 0, 'other': 0}
     for p, v in nodes.items():
         k = v[0][0][0]
         dist['raise' if k == 'raise' else 'ret' if k == 'ret' else 'other'] += 1
     mid = paths[len(paths) // 2]
-    return {'name': name, 'configured': configured, 'debug': debug, 'header': header, 'tops': top_terms,
-            'paths': [[list(ev) for ev in p] for p in paths], 'witnesses': witnesses, 'calls': calls, 'nodes': len(nodes),
+    return {'name': name, 'configured': configured, 'debug': debug,
+            'failing_paths': failing_paths[:8], 'n_failing': len(failing_paths), 'corr_errors': corr_errors,
+            'departs': departs, 'shards': len(shards),
+            'witnesses': witnesses, 'calls': calls, 'nodes': len(nodes),
             'histories': len(seqs), 'leaves': len(leaves), 'rechecked': recheck, 'clone_mismatch': clone_mismatch,
-            'dist': dist, 'seconds': time.time() - t0, 'n_core': n_core, 'n_full': n_full, 'notes': notes,
-            'violating_nodes': sum(1 for v in nodes.values() if v[1]),
+            'dist': dist, 'seconds': sweep_seconds, 'coq_seconds': coq_seconds, 'n_core': n_core, 'n_full': n_full,
+            'notes': notes, 'violating_nodes': sum(1 for v in nodes.values() if v[1]),
             'nontrivial': sum(1 for p in nodes if len(p) >= 2 and any(nodes[p[:i + 1]][0][0][0] == 'ret'
                                                                       for i in range(len(p)))),
             'stages': {repr(canon.expects[k]): v[0] for k, v in stage.items()},
@@ -1221,62 +1258,40 @@ def run(ctx):
     with multiprocessing.get_context('fork').Pool(min(core.NPROC, len(jobs))) as pool:
         results = pool.map(sweep_combo, jobs, chunksize=1)
     sweep_s = time.time() - t0
-    files, index = [], []
     sweep_nontrivial = 0
-    limit = 1400 if ctx['tier'] == 'quick' else 2500
+    departs = 0
     for r in results:
-        tag = 'c11_%s_%s_%s' % (r['name'].lower(), 'cfg' if r['configured'] else 'inf', 'dbg' if r['debug'] else 'nod')
-        shards, cur, n = [], [], 0
-        for term, size in r['tops']:
-            if cur and n + size > limit:
-                shards.append(cur)
-                cur, n = [], 0
-            cur.append(term)
-            n += size
-        if cur:
-            shards.append(cur)
-        for k, sh in enumerate(shards):
-            text = (r['header'] + 'Definition verif_trees : list tr :=\n  [ %s ].\n' % '\n  ; '.join(sh) +
-                    'Eval vm_compute in (failing_all verif_trees).\n'
-                    'Eval vm_compute in (List.length (departs_all verif_trees)).\n')
-            files.append(('%s_%03d' % (tag, k), text))
-            index.append(r)
         res.witnesses += r['witnesses']
         res.oracle_evals += r['calls']
         res.programs += r['nodes']
         key = '%s/%s/%s' % (r['name'], 'configured' if r['configured'] else 'inferring', 'debug' if r['debug'] else 'nodebug')
         res.distribution.setdefault('sweep', {})[key] = {
             'histories': r['histories'], 'tree_nodes': r['nodes'], 'calls_run': r['calls'], 'outcomes': r['dist'],
-            'nodes_violating_the_property': r['violating_nodes'], 'histories_rerun_on_constructed_instances': r['rechecked'],
-            'seconds': round(r['seconds'], 1)}
+            'nodes_violating_the_property': r['violating_nodes'],
+            'nodes_where_the_regenerated_program_departs_from_the_property': r['departs'],
+            'histories_rerun_on_constructed_instances': r['rechecked'], 'coq_files': r['shards'],
+            'sweep_cpu_s': round(r['seconds'], 1), 'coq_s': round(r['coq_seconds'], 1)}
         sweep_nontrivial += r['nontrivial']
+        departs += r['departs']
         res.notes += ['%s: %s' % (key, n) for n in r['notes']]
+        res.corr_errors += r['corr_errors']
         for m in r['clone_mismatch'][:3]:
             res.disagreements.append({'kind': 'clone-vs-constructed', 'grader': r['name'], 'configured': r['configured'],
                                       'debug': r['debug'], 'events': m})
-    res.distribution['expect_stages'] = {r['name']: r['stages'] for r in results if not r['configured'] and not r['debug']}
-    res.distribution['sweep_wall_s'] = round(sweep_s, 1)
-    smp = results[17]
-    res.samples.append({'grader': smp['name'], 'configured': smp['configured'], 'debug': smp['debug'], 'history': smp['sample']})
-    t1 = time.time()
-    outs = core.run_case_files(files)
-    res.distribution['coq_wall_s'] = round(time.time() - t1, 1)
-    res.distribution['coq_case_files'] = len(files)
-    departs = 0
-    for (name, rc, out), r in zip(outs, index):
-        m = re.search(r'=\s*(\[.*?\]|nil)\s*:\s*list\s+Z', out, re.S) if rc == 0 else None
-        if m is None:
-            res.corr_errors.append((name, out[-2000:]))
-            continue
-        idx = [int(x) for x in re.findall(r'-?\d+', m.group(1))]
-        m2 = re.search(r'=\s*(\d+)%nat', out)
-        departs += int(m2.group(1)) if m2 else 0
-        for i in idx[:5]:
-            ev = r['paths'][i]
+        for ev in r['failing_paths'][:5]:
             res.disagreements.append({'kind': 'history', 'grader': r['name'], 'configured': r['configured'],
                                       'debug': r['debug'], 'events': ev})
-        if len(idx) > 5:
-            res.disagreements.append({'kind': 'history', 'grader': r['name'], 'more': len(idx) - 5})
+        if r['n_failing'] > 5:
+            res.disagreements.append({'kind': 'history', 'grader': r['name'], 'more': r['n_failing'] - 5})
+        if not r['n_failing'] and not r['corr_errors'] and r['departs'] != r['violating_nodes']:
+            # the program agrees with the implementation at every node, so both must fail the property at the same nodes
+            res.disagreements.append({'kind': 'violation-count', 'grader': r['name'], 'configured': r['configured'],
+                                      'debug': r['debug'], 'model': r['departs'], 'implementation': r['violating_nodes']})
+    res.distribution['expect_stages'] = {r['name']: r['stages'] for r in results if not r['configured'] and not r['debug']}
+    res.distribution['sweep_and_coq_wall_s'] = round(sweep_s, 1)
+    res.distribution['coq_case_files'] = sum(r['shards'] for r in results)
+    smp = results[17]
+    res.samples.append({'grader': smp['name'], 'configured': smp['configured'], 'debug': smp['debug'], 'history': smp['sample']})
     res.distribution['nodes_where_the_regenerated_program_departs_from_the_property'] = departs
     res.exhaustive = True
     t2 = time.time()
